@@ -36,7 +36,8 @@ fn main() {
     let mut sink = common::Sink::new();
     match prop {
         "C18" => c18::run(&mut sink, thorough, seed),
-        "C01" | "C02" | "C11" | "C14" => c01::run(&mut sink, prop, thorough, seed),
+        "C01" | "C02" | "C11" => c01::run(&mut sink, prop, thorough, seed),
+        "C14" => { c01::run(&mut sink, prop, thorough, seed); typed::run_tdepth(&mut sink, thorough, seed); }
         "C09" => { c01::run(&mut sink, prop, thorough, seed); typed::run_tt3(&mut sink, thorough, seed); }
         "C20" => {
             // number-alphabet strings for Number::from_str + accessors, typed targets, whole documents, verbatim text
